@@ -181,6 +181,28 @@ def flat_counts_vectorised(seqs, n, wins, R):
     return M
 
 
+def flat_counts_sparse(seqs, n, wins, R):
+    """Same counts as flat_counts_vectorised, as a scipy CSR matrix built from np.unique over the
+    event list - for vocabularies whose dense matrix would not fit (keys beyond 2^24)."""
+    import scipy.sparse as sp
+
+    nb = len(wins)
+    width = n * nb
+    keys = []
+    for seq in seqs:
+        s = np.asarray(seq, dtype=np.int64)
+        L = len(s)
+        for b, (i, side) in enumerate(wins):
+            r = int(R[b])
+            for d in range(1, min(r, L - 1) + 1):
+                rows, cols = (s[: L - d], s[d:]) if side == "after" else (s[d:], s[: L - d])
+                keys.append(rows * width + b * n + cols)
+    if not keys:
+        return sp.csr_matrix((n, width), dtype=np.int64)
+    k, cnt = np.unique(np.concatenate(keys), return_counts=True)
+    return sp.csr_matrix((cnt.astype(np.int64), (k // width, k % width)), shape=(n, width))
+
+
 def count_events(seqs, wins, R):
     """number of (occurrence, context) events per block for flat kernels (for C04's evidence)"""
     out = []
@@ -327,6 +349,7 @@ def selftest():
         B = flat_counts_vectorised(seqs, n, wins, R)
         assert np.array_equal(A, B), (seqs, orients, rr)
         assert [int(x) for x in count_events(seqs, wins, R)] == [int(A[:, b * n:(b + 1) * n].sum()) for b in range(len(wins))]
+        assert np.array_equal(flat_counts_sparse(seqs, n, wins, R).toarray(), B)
     # multiset with singleton multisets == token sequence co-occurrence (distance k = token distance)
     for _ in range(20):
         n = rs.randint(2, 5)
